@@ -946,7 +946,38 @@ func c01Loops(c *Ctx, p *Prog) {
 					return isG && sent[g]
 				})
 			if !okData && !okErr {
-				bad = fmt.Sprintf("the loop can be left on the edge %s -> %s without data and without a fatal error", b.Comment, s.Comment)
+				// a merged loop condition ("err == nil && nothing decoded"): every way it can be false
+				// has data available or a fatal error in hand
+				okAlt := true
+				alts := ff.Alternatives(fs, 0)
+				for _, alt := range alts {
+					d := hasFact(alt, func(f Fact) bool {
+						bo, ok := f.Cond.(*ssa.BinOp)
+						if !ok || !isBufLenOf(p, bo.X, tO4Conn, "receiveDecodedBuffer") {
+							return false
+						}
+						k, isK := intConst(bo.Y)
+						op := bo.Op
+						if !f.Pol {
+							op = negOp(op)
+						}
+						return isK && k == 0 && (op == token.NEQ || op == token.GTR)
+					})
+					e := hasFact(alt, func(f Fact) bool {
+						x, isNil, ok := FactNilCmp(f)
+						if !ok || isNil {
+							return false
+						}
+						_, isPhi := x.(*ssa.Phi)
+						return isPhi && fatalWeb(p, ff, x, E, sent, map[*ssa.Phi]bool{})
+					})
+					if !d && !e {
+						okAlt = false
+					}
+				}
+				if !okAlt {
+					bad = fmt.Sprintf("the loop can be left on the edge %s -> %s without data and without a fatal error", b.Comment, s.Comment)
+				}
 			}
 		}
 	}
